@@ -9,6 +9,8 @@
 #include <shark/LinAlg/PartlyPrecomputedMatrix.h>
 #include <shark/LinAlg/BlockMatrix2x2.h>
 #include <shark/LinAlg/DifferenceKernelMatrix.h>
+#include <shark/LinAlg/GaussianKernelMatrix.h>
+#include <shark/Models/Kernels/GaussianRbfKernel.h>
 #include <shark/LinAlg/CachedMatrix.h>
 #include <shark/Models/Kernels/LinearKernel.h>
 #include <shark/Data/Dataset.h>
@@ -93,6 +95,26 @@ int run(){
 			ldata = createLabeledDataFromRange(pts, labels, bs);
 			w.reset(); keepBase.reset();
 			std::cout << "ok\n"; continue;
+		}
+		if(op == "wgauss"){
+			// wgauss g k  i1 j1 i2 j2 ... : GaussianKernelMatrix(gamma = g/2^k) against direct kernel evaluation
+			// (not modelled in Lean: transcendental; oracle only, relative tolerance), after the given flips
+			if(!vh::allNat(t, 1, a) || a.size() < 2 || a.size() % 2){ std::cout << "bad-op\n"; continue; }
+			double gamma = std::ldexp(double(a[0]), -int(a[1]));
+			GaussianKernelMatrix<RealVector,T> gm(gamma, data);
+			GaussianRbfKernel<RealVector> gk(gamma);
+			std::vector<std::size_t> pm(n); for(std::size_t i = 0; i != n; ++i) pm[i] = i;
+			for(std::size_t q = 2; q + 1 < a.size(); q += 2){ if(a[q] < n && a[q+1] < n){ gm.flipColumnsAndRows(a[q], a[q+1]); std::swap(pm[a[q]], pm[a[q+1]]); } }
+			double tol = sizeof(T) == 4 ? 1e-6 : 1e-12; bool bad = false;
+			std::vector<T> st(n);
+			for(std::size_t i = 0; i != n; ++i){
+				gm.row(i, 0, n, n ? &st[0] : 0);
+				for(std::size_t j = 0; j != n; ++j){
+					double direct = gk.eval(pts[pm[i]], pts[pm[j]]);
+					if(std::fabs(double(gm.entry(i,j)) - direct) > tol * (1 + direct) || std::fabs(double(st[j]) - direct) > tol * (1 + direct)) bad = true;
+				}
+			}
+			std::cout << "R=ok" << (bad ? " !oracle gaussian-matrix-differs-from-direct-evaluation" : "") << "\n"; continue;
 		}
 		if(op == "wmk"){
 			if(t.size() < 2 || !vh::allNat(t, 2, a)){ std::cout << "bad-op\n"; continue; }
